@@ -7,6 +7,9 @@ RULE = ("real MemoryBackend driven operation by operation with bare clients, com
         "and every specification clause evaluated on the observed step; families: (targets) every filter pair of the 10-filter universe x 7 names "
         "x QoS triples, temporary/stored/clean sessions; (ownfull) the publisher's own matching queue full: live publisher (refused, nothing changes) and "
         "closing publisher (will during a takeover: own session skipped), QoS 0/1/2, temporary and stored, retained flag set, observers; "
+        "(closewill) a backend Close with live connections, then the will of each of them (QoS 0/1/2, retained, retained-and-empty; owner with a stored session "
+        "subscribed to the will topic or not, a temporary or a clean session), their Terminates, a refused Setup; (ownwill) the will of a connection whose own "
+        "persistent session is subscribed to the will topic with room in its queue, the connection displaced (unclean / clean newcomer) or shut down, then dequeued by the resuming connection; "
         "(failedsetup) a Setup that fails by kill timeout or is refused while the backend closes, then the failed newcomer's Terminate, the "
         "displaced connection's Terminate and a further Setup with the id in all 6 orders, clean/unclean mixed; (sizes) payloads of 0,1,127,128,16383,16384,65535,65536,70001 bytes live, retained and replayed; (retained) every name pair x every filter x QoS pairs with delete (at every QoS) and "
         "non-retained publishes, then resubscription; (samepayload) the same payload republished on a topic with another QoS / without the flag / after a delete; (resumeleftover) a persistent session resumed (reconnect / takeover) with 2-4 messages left in its temporary queue; (manyretained) 24 retained topics replayed by r/+, r/# and r/+/x; (exhaustive) every sequence of depth %s over a %s-operation alphabet "
@@ -102,7 +105,7 @@ def run_gate(ck, clauses, extra=()):
         elif len(f) >= 4 and f[0] == "direct":
             n += 1
             if f[3] == "FAIL" and f[1] in clauses:
-                ck.fail_input(f[1], l, [scn.get(f[2], "")] + [l])
+                ck.fail_input("backend_" + f[1], l, [scn.get(f[2], "")] + [l])
     ck.extra["gated_scenarios"] = len(scn)
     ck.evaluations += n
 
